@@ -64,12 +64,36 @@ func C11(c *core.Ctx) {
 		for _, ci := range core.FindCalls(fn, core.CalleeID{Pkg: "fw/face", Name: "readTlvStream"}) {
 			nSites++
 			_, a := core.CallArgs(ci.Common())
-			mc, ok := core.Strip(a[1]).(*ssa.MakeClosure)
+			// the callback: a function literal, a method value (bound-method wrapper) or a
+			// plain function
+			var cb *ssa.Function
+			var b *ssa.Parameter
+			switch x := core.Strip(a[1]).(type) {
+			case *ssa.MakeClosure:
+				cb = x.Fn.(*ssa.Function)
+				if strings.HasPrefix(cb.Synthetic, "bound method wrapper") {
+					var real *ssa.Function
+					core.Instrs(cb, func(in ssa.Instruction) {
+						if ci, ok := in.(ssa.CallInstruction); ok && ci.Common().StaticCallee() != nil {
+							real = ci.Common().StaticCallee()
+						}
+					})
+					cb = real
+					if cb != nil && len(cb.Params) == 2 {
+						b = cb.Params[1]
+					}
+				} else if len(cb.Params) == 1 {
+					b = cb.Params[0]
+				}
+			case *ssa.Function:
+				cb = x
+				if len(cb.Params) == 1 {
+					b = cb.Params[0]
+				}
+			}
 			okCb := false
-			why := "the frame callback is not a function literal"
-			if ok {
-				cb := mc.Fn.(*ssa.Function)
-				b := cb.Params[0]
+			why := "the frame callback cannot be resolved to a function body"
+			if cb != nil && cb.Blocks != nil && b != nil {
 				okCb = true
 				why = ""
 				handed := false
@@ -108,7 +132,7 @@ func C11(c *core.Ctx) {
 // sameVal: two integer expressions are the same value (provenance identity, through
 // structurally equal sums).
 func sameVal(a, b ssa.Value) bool {
-	a, b = core.Strip(a), core.Strip(b)
+	a, b = core.Resolve(a), core.Resolve(b)
 	if a == b || core.Same(a, b) {
 		return true
 	}
@@ -127,7 +151,7 @@ func sameVal(a, b ssa.Value) bool {
 
 // addends flattens a sum.
 func addends(v ssa.Value) []ssa.Value {
-	v = core.Strip(v)
+	v = core.Resolve(v)
 	if b, ok := v.(*ssa.BinOp); ok && b.Op == token.ADD {
 		return append(addends(b.X), addends(b.Y)...)
 	}
@@ -197,8 +221,8 @@ func c11Forwarder(c *core.Ctx) {
 	pos := p.Pos(fn.Pos())
 	// the Read call and the write cursor
 	var rd ssa.CallInstruction
-	core.Instrs(fn, func(in ssa.Instruction) {
-		if ci, ok := in.(ssa.CallInstruction); ok && ci.Common().IsInvoke() && ci.Common().Method.Name() == "Read" && ci.Common().Value == ssa.Value(fn.Params[0]) {
+	core.InstrsDeep(fn, func(in ssa.Instruction) {
+		if ci, ok := in.(ssa.CallInstruction); ok && ci.Common().IsInvoke() && ci.Common().Method.Name() == "Read" && core.Same(ci.Common().Value, fn.Params[0]) {
 			rd = ci
 		}
 	})
@@ -212,7 +236,7 @@ func c11Forwarder(c *core.Ctx) {
 		return
 	}
 	buf := tgt.X
-	W, isPhi := core.Strip(tgt.Low).(*ssa.Phi)
+	W, isPhi := core.Resolve(tgt.Low).(*ssa.Phi)
 	var n ssa.Value
 	for _, r := range core.Refs(rd.Value()) {
 		if e, ok := r.(*ssa.Extract); ok && e.Index == 0 {
@@ -223,7 +247,7 @@ func c11Forwarder(c *core.Ctx) {
 	var W2 ssa.Value
 	if isPhi && n != nil {
 		for _, r := range core.Refs(W) {
-			if b, ok := r.(*ssa.BinOp); ok && b.Op == token.ADD && ((b.X == ssa.Value(W) && b.Y == n) || (b.Y == ssa.Value(W) && b.X == n)) {
+			if b, ok := r.(*ssa.BinOp); ok && b.Op == token.ADD && ((core.Resolve(b.X) == ssa.Value(W) && b.Y == n) || (core.Resolve(b.Y) == ssa.Value(W) && b.X == n)) {
 				W2 = b
 			}
 		}
@@ -235,7 +259,7 @@ func c11Forwarder(c *core.Ctx) {
 	// the two numbers
 	var nums []ssa.Value
 	var rdrs []ssa.Value
-	core.Instrs(fn, func(in ssa.Instruction) {
+	core.InstrsDeep(fn, func(in ssa.Instruction) {
 		if e, ok := in.(*ssa.Extract); ok && e.Index == 0 && isCallTo(e.Tuple, core.CalleeID{Pkg: "std/encoding", Name: "ReadTLNum"}) {
 			nums = append(nums, e)
 			_, a := core.CallArgs(&e.Tuple.(*ssa.Call).Call)
@@ -248,8 +272,8 @@ func c11Forwarder(c *core.Ctx) {
 	}
 	// the frame hand-up
 	var up *ssa.Call
-	core.Instrs(fn, func(in ssa.Instruction) {
-		if cl, ok := in.(*ssa.Call); ok && cl.Call.Value == ssa.Value(fn.Params[1]) {
+	core.InstrsDeep(fn, func(in ssa.Instruction) {
+		if cl, ok := in.(*ssa.Call); ok && core.Same(cl.Call.Value, fn.Params[1]) {
 			up = cl
 		}
 	})
@@ -262,15 +286,15 @@ func c11Forwarder(c *core.Ctx) {
 		c.Viol("R11.1", "frame-is-the-block", c.Pos(up), "the frame handed up is not a [low:high] slice of the receive buffer")
 		return
 	}
-	P, isPhiP := core.Strip(fr.Low).(*ssa.Phi)
+	P, isPhiP := core.Resolve(fr.Low).(*ssa.Phi)
 	hi := addends(fr.High)
 	var size ssa.Value
 	if isPhiP && len(hi) >= 2 {
 		// high = P + size
 		if b, ok := core.Strip(fr.High).(*ssa.BinOp); ok && b.Op == token.ADD {
-			if core.Strip(b.X) == ssa.Value(P) {
+			if core.Resolve(b.X) == ssa.Value(P) {
 				size = b.Y
-			} else if core.Strip(b.Y) == ssa.Value(P) {
+			} else if core.Resolve(b.Y) == ssa.Value(P) {
 				size = b.X
 			}
 		}
@@ -285,7 +309,7 @@ func c11Forwarder(c *core.Ctx) {
 	for i, e := range P.Edges {
 		pred := P.Block().Preds[i]
 		if b, ok := core.Strip(e).(*ssa.BinOp); ok && b.Op == token.ADD {
-			if (core.Strip(b.X) == ssa.Value(P) && sameVal(b.Y, size)) || (core.Strip(b.Y) == ssa.Value(P) && sameVal(b.X, size)) {
+			if (core.Resolve(b.X) == ssa.Value(P) && sameVal(b.Y, size)) || (core.Resolve(b.Y) == ssa.Value(P) && sameVal(b.X, size)) {
 				// this edge is taken after the hand-up, on every path from it
 				if pred == up.Block() || up.Block().Dominates(pred) {
 					adv = true
@@ -297,7 +321,7 @@ func c11Forwarder(c *core.Ctx) {
 	stale := false
 	for i, e := range P.Edges {
 		pred := P.Block().Preds[i]
-		if (pred == up.Block() || up.Block().Dominates(pred)) && core.Strip(e) == ssa.Value(P) {
+		if (pred == up.Block() || up.Block().Dominates(pred)) && core.Resolve(e) == ssa.Value(P) {
 			stale = true
 		}
 	}
@@ -305,7 +329,7 @@ func c11Forwarder(c *core.Ctx) {
 	// completeness gate
 	isPending := func(v ssa.Value) bool {
 		b, ok := core.StripConv(v).(*ssa.BinOp)
-		return ok && b.Op == token.SUB && sameVal(b.X, W2) && core.Strip(b.Y) == ssa.Value(P)
+		return ok && b.Op == token.SUB && sameVal(b.X, W2) && core.Resolve(b.Y) == ssa.Value(P)
 	}
 	complete := &core.Atom{Name: "pending>=size", Match: func(cond ssa.Value) (int, int) {
 		op, x, y, ok := core.Cmp(cond)
@@ -327,7 +351,7 @@ func c11Forwarder(c *core.Ctx) {
 		}
 		return 0, 0
 	}}
-	g := core.Gate(fn, []ssa.Instruction{up}, pos2(complete))
+	g := core.GateDeep(fn, []ssa.Instruction{up}, pos2(complete))
 	c.Decide(g.OK && g.PassEdges > 0, "R11.1", "hand-up-only-when-complete", c.Pos(up), "the hand-up is reachable only on the edge asserting writeCursor-parseCursor ≥ size", "a block can be handed up before all of its bytes have arrived (or the completeness test is off by one): the frame contains stale bytes")
 	// parse window
 	okWin := len(rdrs) == 2
@@ -338,7 +362,7 @@ func c11Forwarder(c *core.Ctx) {
 			continue
 		}
 		sl, ok := unwrapBytes(cl.Call.Args[0]).(*ssa.Slice)
-		if !ok || sl.Low == nil || sl.High == nil || core.Strip(sl.Low) != ssa.Value(P) || !sameVal(sl.High, W2) || !sameVal(sl.X, buf) {
+		if !ok || sl.Low == nil || sl.High == nil || core.Resolve(sl.Low) != ssa.Value(P) || !sameVal(sl.High, W2) || !sameVal(sl.X, buf) {
 			okWin = false
 		}
 	}
@@ -350,7 +374,7 @@ func c11Forwarder(c *core.Ctx) {
 	// compaction
 	var cp *ssa.Call
 	dstWhole := false
-	core.Instrs(fn, func(in ssa.Instruction) {
+	core.InstrsDeep(fn, func(in ssa.Instruction) {
 		cl, ok := isBuiltinCall(in, "copy")
 		if !ok {
 			return
@@ -375,7 +399,7 @@ func c11Forwarder(c *core.Ctx) {
 	// the parse cursor at the compaction point: P or the outer phi it feeds
 	var pAt ssa.Value
 	if okSrc {
-		pAt = core.Strip(src.Low)
+		pAt = core.Resolve(src.Low)
 		okSrc = pAt == ssa.Value(P) || phiFeeds(pAt, P) || phiFeeds(P, pAt)
 	}
 	c.Decide(okSrc, "R11.1", "compaction-moves-unread-window", c.Pos(cp), "copy(buffer, buffer[p:w])", "compaction does not move exactly the unread window buffer[parseCursor:writeCursor] to the front: the partially received block is corrupted when the buffer wraps")
@@ -386,7 +410,7 @@ func c11Forwarder(c *core.Ctx) {
 			pred := W.Block().Preds[i]
 			if pred == cp.Block() || cp.Block().Dominates(pred) {
 				b, ok := core.Strip(e).(*ssa.BinOp)
-				okW = ok && b.Op == token.SUB && sameVal(b.X, W2) && core.Strip(b.Y) == pAt
+				okW = ok && b.Op == token.SUB && sameVal(b.X, W2) && core.Resolve(b.Y) == pAt
 			}
 		}
 		// the phi through which the parse cursor re-enters the receive loop
@@ -415,7 +439,7 @@ func pos2(a *core.Atom) core.Lit { return core.Lit{A: a, Want: true} }
 
 func phisOf(fn *ssa.Function) []*ssa.Phi {
 	var out []*ssa.Phi
-	core.Instrs(fn, func(in ssa.Instruction) {
+	core.InstrsDeep(fn, func(in ssa.Instruction) {
 		if ph, ok := in.(*ssa.Phi); ok {
 			out = append(out, ph)
 		}
@@ -428,8 +452,8 @@ func phiFeeds(a ssa.Value, b ssa.Value) bool {
 	seen := map[ssa.Value]bool{}
 	var walk func(v ssa.Value) bool
 	walk = func(v ssa.Value) bool {
-		v = core.Strip(v)
-		if v == a {
+		v = core.Resolve(v)
+		if v == core.Resolve(a) {
 			return true
 		}
 		ph, ok := v.(*ssa.Phi)
@@ -444,7 +468,7 @@ func phiFeeds(a ssa.Value, b ssa.Value) bool {
 		}
 		return false
 	}
-	ph, ok := core.Strip(b).(*ssa.Phi)
+	ph, ok := core.Resolve(b).(*ssa.Phi)
 	if !ok {
 		return false
 	}
